@@ -70,6 +70,7 @@ class FuncFacts:
         self.calls = set()
         self.attr_calls = set()
         self.mutable_defaults = set()
+        self.shallow = {}
 
 
 def analyse_function(repo, fi):
@@ -163,6 +164,35 @@ def analyse_function(repo, fi):
                     'result of the memoising function %s (shared between ' \
                     'calls)' % res[1]
 
+    # shallow copies of module-level containers: X = G.copy() / dict(G) /
+    # list(G) / copy.copy(G).  The copy itself is call-local, its ELEMENTS
+    # are still the module-level objects: a store two subscripts deep, or a
+    # mutator on an element, changes state that outlives the call
+    f.shallow = {}
+    for c in body_nodes:
+        if isinstance(c, ast.Assign) and len(c.targets) == 1 and \
+                isinstance(c.targets[0], ast.Name) and \
+                isinstance(c.value, ast.Call):
+            v = c.value
+            src = None
+            if isinstance(v.func, ast.Attribute) and v.func.attr == 'copy' \
+                    and not v.args:
+                src = v.func.value
+            elif isinstance(v.func, ast.Name) and v.func.id in (
+                    'dict', 'list', 'set') and len(v.args) == 1:
+                src = v.args[0]
+            elif isinstance(v.func, ast.Attribute) and \
+                    v.func.attr == 'copy' and len(v.args) == 1:
+                src = v.args[0]         # copy.copy(G)
+            if src is not None:
+                r, path = root_and_path(src)
+                if r is not None and '()' not in path and (
+                        r not in f.locals or r in f.globals_decl) and (
+                        r in mi.globals or r in mi.imports):
+                    f.shallow[c.targets[0].id] = \
+                        'element of a shallow copy of module-level %s%s' % (
+                            r, path)
+
     def record(lineno, text, why):
         f.stores.append((lineno, text, why is not None, why or 'call-local'))
 
@@ -183,7 +213,11 @@ def analyse_function(repo, fi):
                         # target object is the result of a call
                         record(c.lineno, ast.unparse(t), None)
                         continue
-                    record(c.lineno, ast.unparse(t), is_modlevel(r))
+                    why = is_modlevel(r)
+                    if why is None and r in f.shallow and \
+                            path.count('[]') + path.count('.') >= 2:
+                        why = f.shallow[r]
+                    record(c.lineno, ast.unparse(t), why)
         elif isinstance(c, ast.Call):
             fn = c.func
             if isinstance(fn, ast.Attribute):
@@ -191,9 +225,12 @@ def analyse_function(repo, fi):
                 if fn.attr in MUTATORS:
                     r, path = root_and_path(fn.value)
                     if r is not None:
-                        record(c.lineno, ast.unparse(fn) + '(...)',
-                               None if path.startswith('()')
-                               else is_modlevel(r))
+                        why = None if path.startswith('()') \
+                            else is_modlevel(r)
+                        if why is None and r in f.shallow and path and \
+                                not path.startswith('()'):
+                            why = f.shallow[r]
+                        record(c.lineno, ast.unparse(fn) + '(...)', why)
                 # module function call  mod.f(...)
                 if isinstance(fn.value, ast.Name):
                     res = repo.resolve_module_attr(mi, fn.value.id, fn.attr)
